@@ -870,3 +870,60 @@ func asReturn(b *ssa.BasicBlock) (*ssa.Return, bool) {
 	r, ok := b.Instrs[len(b.Instrs)-1].(*ssa.Return)
 	return r, ok
 }
+
+// retResults resolves defer-spilled results: with defers go/ssa stores each result into a
+// local and returns a reload after rundefers; the value stored in the same block is returned.
+func retResults(ret *ssa.Return) []ssa.Value {
+	out := make([]ssa.Value, len(ret.Results))
+	for i, res := range ret.Results {
+		out[i] = res
+		u, ok := res.(*ssa.UnOp)
+		if !ok || u.Op != token.MUL {
+			continue
+		}
+		al, ok := u.X.(*ssa.Alloc)
+		if !ok {
+			continue
+		}
+		instrs := ret.Block().Instrs
+		for j := len(instrs) - 1; j >= 0; j-- {
+			if st, ok := instrs[j].(*ssa.Store); ok && st.Addr == al {
+				out[i] = st.Val
+				break
+			}
+		}
+	}
+	return out
+}
+
+// varOf: if v is a load of a local variable cell (address-taken local), returns the cell.
+func varOf(v ssa.Value) *ssa.Alloc {
+	if u, ok := v.(*ssa.UnOp); ok && u.Op == token.MUL {
+		if al, ok := u.X.(*ssa.Alloc); ok {
+			return al
+		}
+	}
+	return nil
+}
+
+// sameVar: a and b are the same SSA value or loads of the same local variable cell.
+func sameVar(a, b ssa.Value) bool {
+	if a == b {
+		return true
+	}
+	va, vb := varOf(a), varOf(b)
+	return va != nil && va == vb
+}
+
+// storedTo: the call's result is stored into variable cell al.
+func storedTo(v ssa.Value, al *ssa.Alloc) bool {
+	if al == nil || v.Referrers() == nil {
+		return false
+	}
+	for _, ref := range *v.Referrers() {
+		if st, ok := ref.(*ssa.Store); ok && st.Addr == al && st.Val == v {
+			return true
+		}
+	}
+	return false
+}
